@@ -481,6 +481,9 @@ func runC11(c *Ctx) {
 		if c.Quick() && k > 10 {
 			// quick: the first 10 candidate links vary, the remaining stay absent
 			total = pow(3, 10)
+		} else if k > 12 {
+			// thorough: the first 12 candidate links vary (531 441 genomes per layout)
+			total = pow(3, 12)
 		}
 		desc += fmt.Sprintf("layout %s: %d nodes, %d candidate links, %d genomes; ", l.Name, len(l.Nodes), k, total)
 		for lo := int64(0); lo < total; lo += 2048 {
